@@ -3039,11 +3039,22 @@ class LocalGitClient(GitClient):
 
             ref_status: dict[bytes, str | None] = {}
 
+            # never point a ref at an object the target does not have
+            missing = {
+                refname
+                for refname, new_sha1 in new_refs.items()
+                if new_sha1 != ZERO_SHA
+                and old_refs.get(refname) != new_sha1
+                and new_sha1 not in target.object_store
+            }
+
             if atomic:
                 # Validate all ref updates first before applying any
                 for refname, new_sha1 in new_refs.items():
                     old_sha1 = old_refs.get(refname, ZERO_SHA)
-                    if new_sha1 != ZERO_SHA:
+                    if refname in missing:
+                        ref_status[refname] = "missing necessary objects"
+                    elif new_sha1 != ZERO_SHA:
                         current = target.refs.get_peeled(refname)
                         if current is not None and current != old_sha1:
                             ref_status[refname] = (
@@ -3064,7 +3075,10 @@ class LocalGitClient(GitClient):
 
             for refname, new_sha1 in new_refs.items():
                 old_sha1 = old_refs.get(refname, ZERO_SHA)
-                if new_sha1 != ZERO_SHA:
+                if refname in missing:
+                    _progress(f"missing necessary objects for {refname!r}".encode())
+                    ref_status[refname] = "missing necessary objects"
+                elif new_sha1 != ZERO_SHA:
                     if not target.refs.set_if_equals(refname, old_sha1, new_sha1):
                         msg = f"unable to set {refname!r} to {new_sha1!r}"
                         _progress(msg.encode())
